@@ -335,6 +335,43 @@ def part_arrays(ctx, cfg):
     ctx.claim('C08.functions', all(ok), sig='arrays', info=lambda: dict(
         v=v0.tolist(), u=u0.tolist(), got={k: x.tolist()
                                            for k, x in g.items()}))
+    # mutable values: an array handed in as a 'set' update and accumulated
+    # onto later is not modified; an integer array takes a fractional update;
+    # a list leaf gives a new list and leaves the declared default alone
+    first = vs[i].copy()
+    first0 = first.copy()
+    dflt = [1, 2]
+    schema = {'a': {'_default': np.zeros(len(first))},
+              'n': {'_default': np.array([1, 2])},
+              'l': {'_default': dflt}}
+    st = Store(schema)
+    st.apply_defaults()
+    frac = np.array([0.5, 0.25])
+    more = [3]
+    ok2 = []
+    try:
+        st.apply_update({'a': {'_value': first, '_updater': 'set'}})
+        st.apply_update({'a': u, 'n': frac, 'l': more})
+        g2 = st.get_value()
+        ok2 = [np.array_equal(first, first0), np.array_equal(u, u0),
+               np.array_equal(g2['a'], first0 + u0),
+               np.array_equal(g2['n'], np.array([1.5, 2.25])),
+               g2['l'] == [1, 2, 3], dflt == [1, 2], more == [3],
+               np.array_equal(frac, np.array([0.5, 0.25]))]
+        st3 = Store(schema)
+        st3.apply_defaults()
+        ok2.append(st3.get_value()['l'] == [1, 2])
+        ok2.append(np.array_equal(st3.get_value()['n'], np.array([1, 2])))
+        err = None
+    except PathControl:
+        raise
+    except Exception as e_:
+        ctx.check_poison()
+        err = repr(e_)
+        ok2 = [False]
+    ctx.claim('C08.functions', all(ok2), sig='arrays-mutable',
+              info=lambda: dict(checks=ok2, error=err, first=first.tolist(),
+                                first_before=first0.tolist(), default=dflt))
 
 
 def part_units(ctx, cfg):
